@@ -329,7 +329,45 @@ def run(chk):
             chk.violation("C11.closing", c, K.short(c), "asyncio.Task(coro, loop=loop, eager_start=True)",
                           "the task that takes the send lock for a large compressed frame only starts on the next loop iteration: the frame has already passed the `_closing` test, a close() issued in between finds the lock free and writes the Close frame first, and the data frame follows Close on the wire")
     chk.expect_count("C11.closing.spawn", nsp, 2, "task creations in send_frame()")
+    # ---- C11.bytelen: frame lengths are byte counts; len() of a memoryview counts items ---------------------------------------------------
+    bytelen(chk, repo, sf, "message", "C11.bytelen")
+    # ---- C11.copy: what reaches the transport is not a buffer the caller can still change ---------------------------------------------
+    wf = repo.func(WM, f"{W}._write_websocket_frame")
+    params = {a.arg for a in wf.node.args.args[1:]}
+    ncp = 0
+    for c in prog.calls_in(wf.node):
+        if norm.raw(c.func) != "self.transport.write" or not c.args:
+            continue
+        ncp += 1
+        a = c.args[0]
+        byref = isinstance(a, ast.Name) and a.id in params
+        if byref:
+            chk.violation("C11.copy", c, K.short(c), f"self.transport.write({a.id} if type({a.id}) is bytes else bytes({a.id}))",
+                          f"the caller's own object `{a.id}` is handed to the transport, which (CPython 3.12+ selector transport) keeps a reference until the bytes are sent: send_bytes(bytearray) returns before that, a loop that refills its buffer overwrites frames not yet on the wire - the peer receives payloads of later messages under earlier headers")
+        else:
+            chk.ok("C11.copy", c, f"`{K.short(a, 50)}` is a new bytes object (or provably immutable)")
+    chk.expect_count("C11.copy", ncp, 4, "transport.write calls in _write_websocket_frame")
     # ---- C11.rx: "however the frames are segmented in transit" - the reader's resumable-state rules are shared with C12 ----
     from rules import C12
 
     chk.include(C12.run, ("C12.rp", "C12.reset", "C12.mask"), ("C12.", "C11.rx."))
+
+
+def bytelen(chk, repo, fn, param: str, rule: str):
+    """Entry points that frame a caller-supplied buffer by its len(): a memoryview with items wider than one byte must be re-shaped first
+    (len() counts items, the wire counts bytes)."""
+    shape_tests = {id(x) for st in fn.node.body if isinstance(st, ast.If) and "nbytes" in norm.raw(st.test) for x in ast.walk(st.test)}
+    uses = [c for c in ast.walk(fn.node) if isinstance(c, ast.Call) and norm.raw(c.func) == "len" and c.args and norm.raw(c.args[0]) == param and id(c) not in shape_tests]
+    passed = [c for c in prog.calls_in(fn.node) if any(isinstance(a, ast.Name) and a.id == param for a in c.args) and norm.raw(c.func).startswith("self.")]
+    first = min([c.lineno for c in uses + passed], default=None)
+    if first is None:
+        chk.analysis_error(f"{rule}: {fn.qualname} no longer measures or forwards `{param}`")
+        return
+    fixes = [st for st in fn.node.body if isinstance(st, ast.If) and st.lineno < first and ("memoryview" in norm.raw(st.test) or "nbytes" in norm.raw(st.test))
+             and any(isinstance(x, ast.Assign) and norm.raw(x.targets[0]) == param and (".cast(" in norm.raw(x.value) or norm.raw(x.value).startswith("bytes(")) for x in ast.walk(st))]
+    fixes += [st for st in fn.node.body if isinstance(st, ast.Assign) and st.lineno < first and norm.raw(st.targets[0]) == param and norm.raw(st.value).startswith("bytes(")]
+    if fixes:
+        chk.ok(rule, fixes[0], f"{fn.qualname}: `{param}` is re-shaped to bytes items before its len() is used for framing")
+    else:
+        chk.violation(rule, uses[0] if uses else passed[0], K.short(uses[0] if uses else passed[0]), f"if isinstance({param}, memoryview) and {param}.nbytes != len({param}): {param} = {param}.cast('B')",
+                      f"{fn.qualname} frames `{param}` by len(): for a memoryview whose items are wider than one byte (array('I'), numpy) that is the item count, the header announces fewer bytes than are written and the peer parses the surplus payload as frame headers")
